@@ -271,6 +271,33 @@ type HRecDeep struct {
 	}
 }
 
+// cycles that pass through anonymous structs only: the named type on the cycle is a slice, a map or a pointer
+type HAnonList []struct {
+	V    int
+	Next HAnonList
+}
+
+type HAnonMap map[string]struct{ M HAnonMap }
+
+type HAnonPtr *struct {
+	Up HAnonPtr
+	V  string
+}
+
+type HRecAnonSlice struct {
+	L HAnonList
+}
+
+type HRecAnonMap struct {
+	A int
+	M HAnonMap
+}
+
+type HRecAnonPtr struct {
+	P HAnonPtr
+	S []struct{ Q HAnonPtr }
+}
+
 // RecursiveCases are kept out of Cases: only C15 (and C06) present them.
 var RecursiveCases []*Case
 
@@ -285,4 +312,7 @@ func init() {
 	regRec[HRecA]()
 	regRec[HRecM]()
 	regRec[HRecDeep]()
+	regRec[HRecAnonSlice]()
+	regRec[HRecAnonMap]()
+	regRec[HRecAnonPtr]()
 }
